@@ -340,6 +340,71 @@ func ruleR13_4(w *World, r *Report) {
 			}
 			good = good && absent
 		}
+		if !good {
+			// or every caller has asked the registry first and goes on only when it holds nothing under the key
+			sites := 0
+			guarded := true
+			for _, g := range u.ordaFuncs(func(p string) bool { return p == pOrda || p == pCManagers }) {
+				for _, c := range ownCallsIn(g) {
+					if staticCallee(c) != fn {
+						continue
+					}
+					sites++
+					var exist *ssa.Call
+					for _, e := range callsNamed(g, "ExistDatatype") {
+						if ec, isCall := e.(*ssa.Call); isCall && instrDominates(ec, c.(ssa.Instruction)) {
+							exist = ec
+						}
+					}
+					if exist == nil {
+						// the lookup sits under the same guard as the store (both run only with a manager): every path
+						// to the store that passes the lookup's block must have seen "nothing found"
+						for _, e := range callsNamed(g, "ExistDatatype") {
+							if ec, isCall := e.(*ssa.Call); isCall {
+								exist = ec
+							}
+						}
+					}
+					if exist == nil {
+						guarded = false
+						continue
+					}
+					// every return between the lookup and the store: the lookup's result, when not nil, is returned
+					found := false
+					for _, b := range g.Blocks {
+						if len(b.Instrs) == 0 {
+							continue
+						}
+						ifi, isIf := b.Instrs[len(b.Instrs)-1].(*ssa.If)
+						if !isIf {
+							continue
+						}
+						l := normLit(condEdge{ifi.Cond, true})
+						if l.Kind != "cmp" || (l.Op != token.NEQ && l.Op != token.EQL) {
+							continue
+						}
+						ex, isEx := loadSource(l.X).(*ssa.Extract)
+						if !isEx || ex.Tuple != ssa.Value(exist) || ex.Index != 0 {
+							continue
+						}
+						succ := b.Succs[0]
+						if l.Op == token.EQL {
+							succ = b.Succs[1]
+						}
+						if okAll, _ := mustReachFromBlock(succ, func(in ssa.Instruction) bool {
+							_, isRet := in.(*ssa.Return)
+							return isRet
+						}); okAll && !reachableFromBlock(succ, c.(ssa.Instruction).Block()) {
+							found = true
+						}
+					}
+					if !found {
+						guarded = false
+					}
+				}
+			}
+			good = sites > 0 && guarded
+		}
 		r.Check(good, "DatatypeManager.SubscribeOrCreate/register once", u.Pos(mu.Pos()), "stored only when absent", "a datatype is stored under a key that may already be registered: the registered datatype is orphaned (never synced again) and the key is reused with another DUID or type")
 		// the datatype is registered before anything can start its first exchange: in realtime mode SubscribeOrCreate on
 		// the datatype delivers in a background goroutine, whose response is looked up in dataMap
